@@ -1,8 +1,712 @@
 /-
   Lemmas/SchedC08.lean — helper lemmas for Props/C08.lean (pass-level reasoning on top of Lemmas/SchedPass.lean).
+  Everything lives in the namespace `Pj.C08` (sibling helper files prove similar small facts under the same names).
 -/
 import PjVerif.Lemmas.SchedPass
 import PjVerif.Spec.Sched2
-namespace Pj
+namespace Pj.C08
 
-end Pj
+/-! ### dates -/
+
+theorem le_maxT_left (a b : Time) : a ≤ maxT a b := by unfold maxT; split <;> grind
+theorem le_maxT_right (a b : Time) : b ≤ maxT a b := by unfold maxT; split <;> grind
+theorem maxT_cases (a b : Time) : maxT a b = a ∨ maxT a b = b := by unfold maxT; split <;> simp
+theorem maxT_eq_left {a b : Time} (h : b ≤ a) : maxT a b = a := by unfold maxT; split <;> grind
+theorem maxT_eq_right {a b : Time} (h : a ≤ b) : maxT a b = b := by unfold maxT; split <;> grind
+
+theorem le_foldl_maxT : ∀ (l : List Time) (a : Time), a ≤ l.foldl maxT a ∧ ∀ x ∈ l, x ≤ l.foldl maxT a
+  | [], a => by simp
+  | y :: l, a => by
+    obtain ⟨h1, h2⟩ := le_foldl_maxT l (maxT a y)
+    have := le_maxT_left a y
+    have := le_maxT_right a y
+    refine ⟨by simp only [List.foldl_cons]; grind, ?_⟩
+    intro x hx
+    simp only [List.foldl_cons]
+    rcases List.mem_cons.1 hx with rfl | hx
+    · grind
+    · exact h2 x hx
+
+theorem foldl_maxT_mem : ∀ (l : List Time) (a : Time), l.foldl maxT a = a ∨ l.foldl maxT a ∈ l
+  | [], a => by simp
+  | y :: l, a => by
+    simp only [List.foldl_cons, List.mem_cons]
+    rcases foldl_maxT_mem l (maxT a y) with h | h
+    · rcases maxT_cases a y with h' | h'
+      · left; rw [h, h']
+      · right; left; rw [h, h']
+    · right; right; exact h
+
+theorem le_maxEnds (σ : SS) (l : List Uid) (m : Time) : m ≤ maxEnds σ l m := (le_foldl_maxT _ m).1
+
+/-- `maxEnds` is the bound handed in or the end of one of the listed tasks -/
+theorem maxEnds_cases (σ : SS) (l : List Uid) (m : Time) :
+    maxEnds σ l m = m ∨ ∃ p ∈ l, (σ.f p).end_ = some (maxEnds σ l m) := by
+  rcases foldl_maxT_mem (l.filterMap (fun t => (σ.f t).end_)) m with h | h
+  · exact Or.inl h
+  · obtain ⟨p, hp, he⟩ := List.mem_filterMap.1 h
+    exact Or.inr ⟨p, hp, he⟩
+
+theorem maxEnds_congr (σ σ' : SS) (l : List Uid) (m : Time) (h : ∀ p ∈ l, (σ'.f p).end_ = (σ.f p).end_) :
+    maxEnds σ' l m = maxEnds σ l m := by
+  have : l.filterMap (fun t => (σ'.f t).end_) = l.filterMap (fun t => (σ.f t).end_) := by
+    induction l with
+    | nil => rfl
+    | cons x l ih =>
+      simp only [List.filterMap_cons, h x List.mem_cons_self,
+        ih (fun p hp => h p (List.mem_cons_of_mem _ hp))]
+  unfold maxEnds
+  rw [this]
+
+theorem dayOf_mono {a b : Time} (h : a ≤ b) : dayOf a ≤ dayOf b := by
+  unfold dayOf
+  exact Rat.le_floor_iff.2 (Rat.le_trans (Rat.floor_le a) h)
+
+theorem dayOf_le_self (a : Time) : ((dayOf a : Int) : Rat) ≤ a := Rat.floor_le a
+
+theorem lt_dayOf_succ (a : Time) : a < ((dayOf a + 1 : Int) : Rat) := by
+  unfold dayOf
+  exact Rat.floor_lt_iff.1 (by omega)
+
+/-- a time on an earlier day is earlier than the midnight of a later day -/
+theorem lt_of_dayOf_lt {a : Time} {d : Int} (h : dayOf a < d) : a < (d : Rat) := by
+  have h1 := lt_dayOf_succ a
+  have h2 : ((dayOf a + 1 : Int) : Rat) ≤ (d : Rat) := Rat.intCast_le_intCast.2 (by omega)
+  grind
+
+theorem le_of_lt_le_lt {a b c d : Rat} (h1 : a < b) (h2 : b ≤ c) (h3 : c < d) : a ≤ d := by grind
+
+theorem div_le_div_right {a b c : Rat} (h : a ≤ b) (hc : 0 < c) : a / c ≤ b / c := by
+  rw [Rat.div_def, Rat.div_def]
+  exact Rat.mul_le_mul_of_nonneg_right h (Rat.le_of_lt (Rat.inv_pos.2 hc))
+
+/-! ### a sharper induction principle for the forward pass -/
+
+/-- tasks of the list that satisfy `C` are done at the end when every step on such a task leaves it done -/
+theorem passList_done_of (C : Uid → Prop) (step : SS → Uid → Res SS) :
+    ∀ (xs : List Uid), (∀ σ x σ', x ∈ xs → step σ x = .ok σ' → Ext σ σ' ∧ (C x → x ∈ σ'.done)) →
+      ∀ (σ σ' : SS), passList step σ xs = .ok σ' → ∀ x ∈ xs, C x → x ∈ σ'.done := by
+  intro xs
+  induction xs with
+  | nil => intro _ σ σ' _ x hx; cases hx
+  | cons y xs ih =>
+    intro hstep σ σ' h x hx hc
+    simp only [passList, bind, Except.bind] at h
+    split at h
+    · cases h
+    · rename_i σ1 h1
+      have hrest := fun σ z σ' (hz : z ∈ xs) => hstep σ z σ' (List.mem_cons_of_mem _ hz)
+      rcases List.mem_cons.1 hx with rfl | hx
+      · have he : Ext σ1 σ' := passList_rel Ext Ext.refl (fun _ _ _ => Ext.trans) step xs
+          (fun σ z σ' hz hh => (hrest σ z σ' hz hh).1) σ1 σ' h
+        exact he.done_sub ((hstep σ x σ1 List.mem_cons_self h1).2 hc)
+      · exact ih hrest σ1 σ' h x hx hc
+
+/-- like `fwdPass_inv`, but the invariant of a placement may depend on the bound handed down (`Q t m`), and the
+    placement knows where its `maxPred` comes from: an earlier state `σ1` in which all the same-side predecessors
+    were done -/
+theorem fwdPass_inv2 (env : Env) (I : SS → Prop) (Q : Uid → Time → Prop)
+    (hplace : ∀ σ1 σ σ' t m, Q t m → I σ → Ext σ1 σ →
+      (∀ p ∈ (env.info t).preds, (env.info p).member = (env.info t).member → p ∈ σ1.done) →
+      t ∉ σ.done → (∀ c ∈ (env.info t).children, c ∈ σ.done) →
+      fwdPlace env σ t (maxEnds σ1 (env.info t).preds m) = .ok σ' → I σ')
+    (hkids : ∀ t c σ1 m, Q t m → c ∈ (env.info t).children → Q c (maxEnds σ1 (env.info t).preds m))
+    (hlinks : ∀ t p m, Q t m → p ∈ (env.info t).preds → (env.info p).member = (env.info t).member → Q p m) :
+    ∀ (fuel : Nat) (stk : List Uid) (σ : SS) (t : Uid) (m : Time) (σ' : SS),
+      Q t m → I σ → fwdPass env fuel stk σ t m = .ok σ' → I σ' := by
+  intro fuel
+  induction fuel with
+  | zero => intro stk σ t m σ' _ _ h; cases h
+  | succ fuel ih =>
+    intro stk σ t m σ' hq hi h
+    rw [fwdPass_eq_gPass] at h
+    rcases gPass_succ_cases env _ _ _ _ fuel stk σ t m σ' h with ⟨hd, rfl⟩ | ⟨hd, hs, σ1, σ2, h1, h2, h3⟩
+    · exact hi
+    · simp only [← fwdPass_eq_gPass] at h1 h2
+      have hx := fun a b c d hh => fwdPass_extS env fuel (t :: stk) a b c d hh
+      have e1 : ExtS (t :: stk) σ σ1 := passList_extS _ _ _ (fun a x b _ hh => by
+        split at hh
+        · exact (hx _ _ _ _ hh).1
+        · cases hh; exact ExtS.refl _ _) _ _ h1
+      have e2 : ExtS (t :: stk) σ1 σ2 := passList_extS _ _ _ (fun a x b _ hh => (hx _ _ _ _ hh).1) _ _ h2
+      have ht2 : t ∉ σ2.done := (e1.trans e2).2 t List.mem_cons_self hd
+      have i1 : I σ1 := passList_inv I _ _ (fun a x b hxl ha hh => by
+        split at hh
+        · rename_i hm
+          exact ih _ _ _ _ _ (hlinks t x m hq hxl (by simpa using hm)) ha hh
+        · cases hh; exact ha) _ _ hi h1
+      have i2 : I σ2 := passList_inv I _ _ (fun a x b hxl ha hh => ih _ _ _ _ _ (hkids t x σ1 m hq hxl) ha hh) _ _ i1 h2
+      have hk : ∀ c ∈ (env.info t).children, c ∈ σ2.done := passList_all_done _ _ (fun a x b _ hh =>
+        ⟨(hx _ _ _ _ hh).1.1, (hx _ _ _ _ hh).2⟩) _ _ h2
+      have hp : ∀ p ∈ (env.info t).preds, (env.info p).member = (env.info t).member → p ∈ σ1.done :=
+        passList_done_of (fun p => (env.info p).member = (env.info t).member) _ _ (fun a x b _ hh => by
+          split at hh
+          · exact ⟨(hx _ _ _ _ hh).1.1, fun _ => (hx _ _ _ _ hh).2⟩
+          · rename_i hm
+            cases hh
+            exact ⟨Ext.refl _, fun hc => absurd (by simpa using hc) hm⟩) _ _ h1
+      exact hplace σ1 σ2 σ' t m hq i2 e2.1 hp ht2 hk h3
+
+/-! ### what the placement of a leaf without fixed dates computes -/
+
+theorem setF_f_self (σ : SS) (t : Uid) (g : Fields → Fields) : ((setF σ t g).f t) = g (σ.f t) := by
+  simp [setF, upd]
+
+theorem fillEst_keeps (env : Env) (t : Uid) (σ σ' : SS) (h : fillEst env t σ = .ok σ') :
+    (σ'.f t).start = (σ.f t).start ∧ (σ'.f t).end_ = (σ.f t).end_ := by
+  unfold fillEst at h
+  simp only [bind, Except.bind] at h
+  split at h
+  · cases h
+  · rename_i σ1 h1
+    have s1 : (σ1.f t).start = (σ.f t).start ∧ (σ1.f t).end_ = (σ.f t).end_ := by
+      split at h1
+      · cases h1; exact ⟨rfl, rfl⟩
+      · split at h1
+        · cases h1; simp [setF_f_self]
+        · split at h1
+          · cases h1
+          · cases h1; simp [setF_f_self]
+    have s2 : (σ'.f t).start = (σ1.f t).start ∧ (σ'.f t).end_ = (σ1.f t).end_ := by
+      split at h
+      · cases h; exact ⟨rfl, rfl⟩
+      · split at h
+        · cases h; simp [setF_f_self]
+        · split at h
+          · cases h
+          · cases h; simp [setF_f_self]
+    exact ⟨s2.1.trans s1.1, s2.2.trans s1.2⟩
+
+theorem fwdStart_leaf (env : Env) (cal : Cal) (used : Int → Rat) (t : Uid) (v : Time) (σ σ' : SS)
+    (hs : (σ.f t).start = none) (hl : (env.info t).children.isEmpty = true)
+    (h : fwdStart env cal used t v σ = .ok σ') :
+    ∃ s, nearestFwd cal used (maxT (maxT v (env.clock σ.reads)) ((env.info t).minStart.getD epoch)) = .ok s ∧
+      (σ'.f t).start = some s ∧ (σ'.f t).end_ = (σ.f t).end_ := by
+  unfold fwdStart at h
+  simp only at h
+  split at h
+  · rename_i x hx; rw [hs] at hx; cases hx
+  · split at h
+    · simp only [bind, Except.bind] at h
+      split at h
+      · cases h
+      · rename_i s hs'
+        cases h
+        exact ⟨s, hs', by simp [setF_f_self], by simp [setF_f_self, now]⟩
+    · rename_i hc; exact absurd hl hc
+
+theorem fwdEnd_leaf (env : Env) (cal : Cal) (used : Int → Rat) (t : Uid) (σ σ' : SS) (s : Time)
+    (he : (σ.f t).end_ = none) (hs : (σ.f t).start = some s) (hl : (env.info t).children.isEmpty = true)
+    (h : fwdEnd env cal used t σ = .ok σ') :
+    ∃ e rows, shiftFwd cal used (maxT s (env.clock σ.reads)) (leftOf σ t) = .ok (e, rows) ∧
+      (σ'.f t).start = some s ∧ (σ'.f t).end_ = some (maxT (maxT e (env.clock (σ.reads + 1))) s) ∧
+      Stage env t rows σ σ' := by
+  unfold fwdEnd at h
+  simp only at h
+  split at h
+  · rename_i x hx; rw [he] at hx; cases hx
+  · split at h
+    · simp only [bind, Except.bind] at h
+      split at h
+      · cases h
+      · rename_i v hv
+        obtain ⟨e, rows⟩ := v
+        cases h
+        simp only [now, hs, Option.getD_some] at hv
+        refine ⟨e, rows, hv, ?_, ?_, ?_⟩
+        · simp [setF_f_self, now, addRows, hs]
+        · simp [setF_f_self, now, addRows, hs]
+        · exact ((((Stage.now env t σ).trans (Stage.addRows env t _ rows)).trans (Stage.now env t _)).trans
+            (Stage.setF env t _ _)).cast (by simp)
+    · rename_i hc; exact absurd hl hc
+
+/-- the placement of a non-milestone leaf whose dates are both open: the start comes from the availability search,
+    the end from the fill, and the rows of the fill are appended to the ledger -/
+theorem fwdPlace_leaf (env : Env) (σ σ' : SS) (t : Uid) (v : Time)
+    (hs : (σ.f t).start = none) (he : (σ.f t).end_ = none) (hl : (env.info t).children.isEmpty = true)
+    (hm : (env.info t).milestone = false) (h : fwdPlace env σ t v = .ok σ') :
+    ∃ s e rows k0 k1 k2 left, 0 ≤ left ∧
+      nearestFwd (resLookup σ.res (env.info t).resource).2 (usedBy env σ.rows (env.info t).resource t)
+        (maxT (maxT v (env.clock k0)) ((env.info t).minStart.getD epoch)) = .ok s ∧
+      shiftFwd (resLookup σ.res (env.info t).resource).2 (usedBy env σ.rows (env.info t).resource t)
+        (maxT s (env.clock k1)) left = .ok (e, rows) ∧
+      (σ'.f t).start = some s ∧ (σ'.f t).end_ = some (maxT (maxT e (env.clock k2)) s) ∧
+      σ'.rows = σ.rows ++ rows.map (mkRow (env.info t).resource t) ∧
+      σ'.res = (resLookup σ.res (env.info t).resource).1 := by
+  unfold fwdPlace at h
+  rcases hr : resLookup σ.res (env.info t).resource with ⟨res', cal⟩
+  simp only [hr, bind, Except.bind, pure, Except.pure, hm] at h ⊢
+  split at h
+  · rename_i hc; cases hc
+  split at h
+  · cases h
+  · rename_i σ1 h1
+    split at h
+    · cases h
+    · rename_i σ2 h2
+      split at h
+      · cases h
+      · rename_i σ3 h3
+        cases h
+        obtain ⟨s, hn, hs1, he1⟩ := fwdStart_leaf env cal _ t v { σ with res := res' } σ1 hs hl h1
+        have st1 := fwdStart_stage _ _ _ _ _ _ _ h1
+        obtain ⟨hs2, he2⟩ := fillEst_keeps env t σ1 σ2 h2
+        have st2 := fillEst_stage _ _ _ _ h2
+        obtain ⟨e, rows, hsh, hs3, he3, st3⟩ := fwdEnd_leaf env cal _ t σ2 σ3 s (by rw [he2, he1]; exact he)
+          (by rw [hs2, hs1]) hl h3
+        have st := (st1.trans st2).trans st3
+        refine ⟨s, e, rows, _, _, _, _, leftOf_nonneg σ2 t, hn, hsh, hs3, he3, ?_, ?_⟩
+        · have := st.rows
+          simpa [markDone] using this
+        · exact st.res
+
+/-! ### first and last reserved day, rows of one task -/
+
+theorem foldl_min_spec : ∀ (l : List Int) (a : Int),
+    (l.foldl min a ≤ a ∧ ∀ x ∈ l, l.foldl min a ≤ x) ∧ (l.foldl min a = a ∨ l.foldl min a ∈ l)
+  | [], a => by simp
+  | y :: l, a => by
+    obtain ⟨⟨h1, h2⟩, h3⟩ := foldl_min_spec l (min a y)
+    simp only [List.foldl_cons, List.mem_cons]
+    refine ⟨⟨by omega, ?_⟩, ?_⟩
+    · intro x hx
+      rcases hx with rfl | hx
+      · omega
+      · exact h2 x hx
+    · rcases h3 with h | h
+      · rcases Int.min_def a y ▸ (by split <;> simp : (if a ≤ y then a else y) = a ∨ (if a ≤ y then a else y) = y) with h' | h'
+        · left; rw [h, h']
+        · right; left; rw [h, h']
+      · right; right; exact h
+
+theorem foldl_max_spec : ∀ (l : List Int) (a : Int),
+    (a ≤ l.foldl max a ∧ ∀ x ∈ l, x ≤ l.foldl max a) ∧ (l.foldl max a = a ∨ l.foldl max a ∈ l)
+  | [], a => by simp
+  | y :: l, a => by
+    obtain ⟨⟨h1, h2⟩, h3⟩ := foldl_max_spec l (max a y)
+    simp only [List.foldl_cons, List.mem_cons]
+    refine ⟨⟨by omega, ?_⟩, ?_⟩
+    · intro x hx
+      rcases hx with rfl | hx
+      · omega
+      · exact h2 x hx
+    · rcases h3 with h | h
+      · rcases Int.max_def a y ▸ (by split <;> simp : (if a ≤ y then y else a) = a ∨ (if a ≤ y then y else a) = y) with h' | h'
+        · left; rw [h, h']
+        · right; left; rw [h, h']
+      · right; right; exact h
+
+theorem firstDay_cons (r : Row) (rs : List Row) :
+    firstDay (r :: rs) = some ((rs.map (·.day)).foldl min r.day) := by
+  unfold firstDay
+  simp only [List.map_cons, List.foldl_cons]
+  generalize r.day = a
+  generalize rs.map (·.day) = l
+  induction l generalizing a with
+  | nil => rfl
+  | cons y l ih => simp only [List.foldl_cons]; exact ih _
+
+theorem lastDay_cons (r : Row) (rs : List Row) :
+    lastDay (r :: rs) = some ((rs.map (·.day)).foldl max r.day) := by
+  unfold lastDay
+  simp only [List.map_cons, List.foldl_cons]
+  generalize r.day = a
+  generalize rs.map (·.day) = l
+  induction l generalizing a with
+  | nil => rfl
+  | cons y l ih => simp only [List.foldl_cons]; exact ih _
+
+/-- the first day of a list of rows is its least day -/
+theorem firstDay_eq (rows : List Row) (d : Int) (hm : d ∈ rows.map (·.day)) (hle : ∀ x ∈ rows.map (·.day), d ≤ x) :
+    firstDay rows = some d := by
+  cases rows with
+  | nil => cases hm
+  | cons r rs =>
+    rw [firstDay_cons]
+    obtain ⟨⟨h1, h2⟩, h3⟩ := foldl_min_spec (rs.map (·.day)) r.day
+    simp only [List.map_cons, List.mem_cons] at hm hle
+    have hge : d ≤ (rs.map (·.day)).foldl min r.day := by
+      rcases h3 with h | h
+      · rw [h]; exact hle _ (Or.inl rfl)
+      · exact hle _ (Or.inr h)
+    have hle' : (rs.map (·.day)).foldl min r.day ≤ d := by
+      rcases hm with rfl | hm
+      · exact h1
+      · exact h2 d hm
+    congr 1
+    omega
+
+theorem lastDay_eq (rows : List Row) (d : Int) (hm : d ∈ rows.map (·.day)) (hle : ∀ x ∈ rows.map (·.day), x ≤ d) :
+    lastDay rows = some d := by
+  cases rows with
+  | nil => cases hm
+  | cons r rs =>
+    rw [lastDay_cons]
+    obtain ⟨⟨h1, h2⟩, h3⟩ := foldl_max_spec (rs.map (·.day)) r.day
+    simp only [List.map_cons, List.mem_cons] at hm hle
+    have hge : (rs.map (·.day)).foldl max r.day ≤ d := by
+      rcases h3 with h | h
+      · rw [h]; exact hle _ (Or.inl rfl)
+      · exact hle _ (Or.inr h)
+    have hle' : d ≤ (rs.map (·.day)).foldl max r.day := by
+      rcases hm with rfl | hm
+      · exact h1
+      · exact h2 d hm
+    congr 1
+    omega
+
+theorem reserved_none_task (rows : List Row) (t : Uid) (h : ∀ r ∈ rows, r.task ≠ t) (k : Option Nat) (d : Int) :
+    reserved rows k d (some t) = 0 := by
+  unfold reserved
+  rw [List.filter_eq_nil_iff.2 (fun r hr => by simp [h r hr])]
+  rfl
+
+theorem rowsOf_none (rows : List Row) (t : Uid) (h : ∀ r ∈ rows, r.task ≠ t) : rowsOf rows t = [] := by
+  unfold rowsOf
+  exact List.filter_eq_nil_iff.2 (fun r hr => by simp [h r hr])
+
+theorem rowsOf_append (a b : List Row) (t : Uid) : rowsOf (a ++ b) t = rowsOf a t ++ rowsOf b t := by
+  simp [rowsOf, List.filter_append]
+
+theorem rowsOf_mk (key : Option Nat) (t : Uid) (new : List (Int × Rat)) :
+    rowsOf (new.map (mkRow key t)) t = new.map (mkRow key t) := by
+  unfold rowsOf
+  exact List.filter_eq_self.2 (fun r hr => by
+    obtain ⟨p, _, rfl⟩ := List.mem_map.1 hr
+    simp [mkRow])
+
+theorem map_day_mk (key : Option Nat) (t : Uid) (new : List (Int × Rat)) :
+    (new.map (mkRow key t)).map (·.day) = new.map (·.1) := by
+  simp [List.map_map, Function.comp_def, mkRow]
+
+theorem firstRowIdx_new (rows : List Row) (key : Option Nat) (t : Uid) (new : List (Int × Rat))
+    (h : ∀ r ∈ rows, r.task ≠ t) (hne : new ≠ []) :
+    firstRowIdx (rows ++ new.map (mkRow key t)) t = some rows.length := by
+  unfold firstRowIdx
+  rw [List.findIdx?_append]
+  have h1 : rows.findIdx? (fun r => r.task == t) = none :=
+    List.findIdx?_eq_none_iff.2 (fun r hr => by simp [h r hr])
+  rw [h1]
+  cases new with
+  | nil => exact absurd rfl hne
+  | cons p l => simp [mkRow, List.findIdx?_cons]
+
+theorem daySum_nonneg (new : List (Int × Rat)) (hpos : ∀ p ∈ new, 0 < p.2) (d : Int) : 0 ≤ daySum new d := by
+  unfold daySum
+  apply sum_nonneg_rat
+  intro x hx
+  obtain ⟨y, hy, rfl⟩ := List.mem_map.1 hx
+  exact Rat.le_of_lt (hpos y (List.mem_filter.1 hy).1)
+
+/-! ### the encoding clause for one task -/
+
+def outOf (σ : SS) : Output := { f := σ.f, rows := σ.rows, res := σ.res }
+
+/-- the body of `c08Encode` for one task -/
+def encT (env : Env) (o : Output) (t : Uid) : Bool :=
+  let k := (env.info t).resource
+  match firstDay (rowsOf o.rows t), lastDay (rowsOf o.rows t), (o.f t).start, (o.f t).end_ with
+  | some d1, some d2, some s, some e =>
+    let c1 := capMid o.res k d1
+    let c2 := capMid o.res k d2
+    decide (0 < c1) && decide (0 < c2) &&
+    s == (d1 : Rat) + bookedBefore env o k d1 t / c1 &&
+    e == (d2 : Rat) + bookedUpTo env o k d2 t / c2
+  | none, none, _, _ => true
+  | _, _, _, _ => false
+
+theorem c08Encode_eq (env : Env) (f0 : Uid → Fields) (o : Output) :
+    c08Encode env f0 o = (memberList env).all (fun t => !c08Subject env f0 t || encT env o t) := rfl
+
+theorem encT_norows (env : Env) (o : Output) (t : Uid) (h : rowsOf o.rows t = []) : encT env o t = true := by
+  unfold encT
+  rw [h]
+  rfl
+
+theorem encT_of (env : Env) (o : Output) (t : Uid) (d1 d2 : Int) (s e : Time)
+    (h1 : firstDay (rowsOf o.rows t) = some d1) (h2 : lastDay (rowsOf o.rows t) = some d2)
+    (h3 : (o.f t).start = some s) (h4 : (o.f t).end_ = some e)
+    (h5 : 0 < capMid o.res (env.info t).resource d1) (h6 : 0 < capMid o.res (env.info t).resource d2)
+    (h7 : s = (d1 : Rat) + bookedBefore env o (env.info t).resource d1 t / capMid o.res (env.info t).resource d1)
+    (h8 : e = (d2 : Rat) + bookedUpTo env o (env.info t).resource d2 t / capMid o.res (env.info t).resource d2) :
+    encT env o t = true := by
+  unfold encT
+  simp only [h1, h2, h3, h4]
+  simp [h5, h6, ← h7, ← h8]
+
+theorem capMid_lookup (res : List (Option Nat × Cal)) (k : Option Nat) (d : Int) (c : Rat)
+    (hc : capR (resLookup res k).2 (d : Rat) = .ok c) : capMid (resLookup res k).1 k d = c := by
+  unfold capMid
+  rw [(resLookup_spec res k).2.1, hc]
+
+/-- what the ledger looks like from the placed task's point of view, right after its placement -/
+theorem booked_after_place (env : Env) (σ σ' : SS) (t : Uid) (new : List (Int × Rat))
+    (hnr : ∀ r ∈ σ.rows, r.task ≠ t) (hne : new ≠ [])
+    (hrows : σ'.rows = σ.rows ++ new.map (mkRow (env.info t).resource t)) :
+    (∀ day, bookedBefore env (outOf σ') (env.info t).resource day t = usedBy env σ.rows (env.info t).resource t day) ∧
+    (∀ day, reserved σ'.rows (env.info t).resource day (some t) = daySum new day) := by
+  constructor
+  · intro day
+    unfold bookedBefore usedBy
+    cases hb : env.balance with
+    | true =>
+      simp only [if_true, outOf]
+      rw [hrows, firstRowIdx_new _ _ _ _ hnr hne]
+      simp
+    | false =>
+      simp only [Bool.false_eq_true, if_false]
+      rw [reserved_none_task σ.rows t hnr]
+  · intro day
+    rw [hrows, reserved_append, reserved_mk, reserved_none_task σ.rows t hnr, if_pos ⟨rfl, fun t' h => by cases h; rfl⟩]
+    grind
+
+/-- the encoding clause holds for a task right after its placement, when every clock reading lies on a day before
+    the project start day and the bound handed down is not before the project start -/
+theorem place_enc (env : Env) (σ σ' : SS) (t : Uid) (v : Time)
+    (hb : ∀ k, dayOf (env.clock k) < dayOf env.bound) (hv : env.bound ≤ v)
+    (hl : LedgerOK env σ) (hnr : ∀ r ∈ σ.rows, r.task ≠ t)
+    (hs : (σ.f t).start = none) (he : (σ.f t).end_ = none) (hleaf : (env.info t).children.isEmpty = true)
+    (hm : (env.info t).milestone = false) (h : fwdPlace env σ t v = .ok σ') : encT env (outOf σ') t = true := by
+  obtain ⟨s, e, rows, k0, k1, k2, left, hleft, hn, hsh, hs', he', hrows, hres⟩ := fwdPlace_leaf env σ σ' t v hs he hleaf hm h
+  have hu : ∀ d, 0 ≤ usedBy env σ.rows (env.info t).resource t d := fun d => reserved_nonneg _ hl.pos _ _ _
+  obtain ⟨d, c, hd0, hcap, hav, hsd, hds, _⟩ := nearestFwd_spec _ _ _ _ hu hn
+  -- the search starts at or after the project start
+  have hbd : dayOf env.bound ≤ d := by
+    have h1 : env.bound ≤ maxT (maxT v (env.clock k0)) ((env.info t).minStart.getD epoch) :=
+      Rat.le_trans hv (Rat.le_trans (le_maxT_left _ _) (le_maxT_left _ _))
+    have := dayOf_mono h1
+    omega
+  have hclk : ∀ k, env.clock k < (d : Rat) := fun k => lt_of_dayOf_lt (by have := hb k; omega)
+  have hc0 : 0 < c := by have := hu d; grind
+  have hfrac := div_nonneg_lt_one (u := usedBy env σ.rows (env.info t).resource t d) (c := c) (hu d) (by grind)
+  have hs1 : maxT s (env.clock k1) = s := maxT_eq_left (by have := hclk k1; grind)
+  rw [hs1] at hsh
+  obtain ⟨hz, hp⟩ := shiftFwd_spec _ _ _ _ _ _ hleft hu hsh
+  by_cases hl0 : left = 0
+  · -- nothing to place: no rows
+    apply encT_norows
+    show rowsOf σ'.rows t = []
+    rw [hrows, (hz hl0).2]
+    simpa using rowsOf_none σ.rows t hnr
+  · obtain ⟨dayL, dauL, hspec, hne, hlt, hle, hee⟩ := hp (by grind)
+    rw [hds] at hspec
+    obtain ⟨⟨u, hlast⟩, hcapL, hdauL⟩ := hspec.last hne
+    have hlastmem : (dayL, u) ∈ rows := List.mem_of_getLast? hlast
+    have hdL : d ≤ dayL := by have := hspec.range _ hlastmem; simp only at this; omega
+    -- the first reserved day is the day found by the search
+    have hdmem : d ∈ rows.map (·.1) := by
+      apply Classical.byContradiction
+      intro hcon
+      obtain ⟨c', hc', hfull⟩ := hspec.skipped d (by omega) hdL (fun p hp hpd => hcon (List.mem_map.2 ⟨p, hp, hpd⟩))
+      rw [hcap] at hc'
+      cases hc'
+      grind
+    have hrowsOf : rowsOf σ'.rows t = rows.map (mkRow (env.info t).resource t) := by
+      rw [hrows, rowsOf_append, rowsOf_none σ.rows t hnr, rowsOf_mk]
+      rfl
+    have hfirst : firstDay (rowsOf (outOf σ').rows t) = some d := by
+      show firstDay (rowsOf σ'.rows t) = some d
+      rw [hrowsOf]
+      apply firstDay_eq
+      · rw [map_day_mk]; exact hdmem
+      · rw [map_day_mk]
+        intro x hx
+        obtain ⟨p, hp, rfl⟩ := List.mem_map.1 hx
+        have := hspec.range p hp
+        omega
+    have hlastD : lastDay (rowsOf (outOf σ').rows t) = some dayL := by
+      show lastDay (rowsOf σ'.rows t) = some dayL
+      rw [hrowsOf]
+      apply lastDay_eq
+      · rw [map_day_mk]; exact List.mem_map.2 ⟨_, hlastmem, rfl⟩
+      · rw [map_day_mk]
+        intro x hx
+        obtain ⟨p, hp, rfl⟩ := List.mem_map.1 hx
+        exact (hspec.range p hp).2
+    obtain ⟨hbefore, hown⟩ := booked_after_place env σ σ' t rows hnr hne hrows
+    have hcm1 : capMid (outOf σ').res (env.info t).resource d = c := by
+      show capMid σ'.res _ _ = c
+      rw [hres]; exact capMid_lookup _ _ _ _ hcap
+    have hcm2 : capMid (outOf σ').res (env.info t).resource dayL = dauL := by
+      show capMid σ'.res _ _ = dauL
+      rw [hres]; exact capMid_lookup _ _ _ _ hcapL
+    -- the stored end is the computed one
+    have hsum0 : 0 ≤ daySum rows dayL := daySum_nonneg rows (fun p hp => (hspec.fits p hp).choose_spec.2.1) dayL
+    have hdLr : (d : Rat) ≤ (dayL : Rat) := Rat.intCast_le_intCast.2 hdL
+    have hse : s ≤ e := by
+      by_cases hsame : dayL = d
+      · subst hsame
+        rw [hcap] at hcapL
+        cases hcapL
+        rw [hsd, hee]
+        have := div_le_div_right (a := usedBy env σ.rows (env.info t).resource t dayL)
+          (b := usedBy env σ.rows (env.info t).resource t dayL + daySum rows dayL) (c := c) (by grind) hc0
+        unfold daySum at this
+        grind
+      · have : ((d + 1 : Int) : Rat) ≤ (dayL : Rat) := Rat.intCast_le_intCast.2 (by omega)
+        rw [Rat.intCast_add] at this
+        grind
+    have hend : maxT (maxT e (env.clock k2)) s = e := by
+      have hce : env.clock k2 ≤ e := le_of_lt_le_lt (hclk k2) hdLr hlt
+      rw [maxT_eq_left hce, maxT_eq_left hse]
+    rw [hend] at he'
+    refine encT_of env (outOf σ') t d dayL s e hfirst hlastD hs' he' ?_ ?_ ?_ ?_
+    · rw [hcm1]; exact hc0
+    · rw [hcm2]; exact hdauL
+    · rw [hcm1, hbefore d]; exact hsd
+    · rw [hcm2]
+      unfold bookedUpTo
+      rw [hbefore dayL]
+      show e = (dayL : Rat) + (_ + reserved σ'.rows _ _ _) / dauL
+      rw [hown dayL]
+      exact hee
+
+/-- the encoding clause of a task that is done does not change afterwards -/
+theorem encT_ext (env : Env) (σ σ' : SS) (x : Uid) (hx : x ∈ σ.done) (he : Ext σ σ') (hl : LedgerOK env σ) :
+    encT env (outOf σ') x = encT env (outOf σ) x := by
+  obtain ⟨r, hr, hq⟩ := he.rows
+  obtain ⟨r', hr', _⟩ := he.res
+  have hnew : ∀ y ∈ r, y.task ≠ x := fun y hy hc => (hq y hy).2 (hc ▸ hx)
+  have hrowsOf : rowsOf σ'.rows x = rowsOf σ.rows x := by
+    rw [hr, rowsOf_append, rowsOf_none r x hnew, List.append_nil]
+  by_cases hempty : rowsOf σ.rows x = []
+  · rw [encT_norows env (outOf σ') x (by show rowsOf σ'.rows x = []; rw [hrowsOf]; exact hempty),
+      encT_norows env (outOf σ) x hempty]
+  · obtain ⟨r0, hr0⟩ := List.exists_mem_of_ne_nil _ hempty
+    obtain ⟨hr0m, hr0t⟩ := List.mem_filter.1 hr0
+    have hr0t' : r0.task = x := by simpa using hr0t
+    have hkey : (σ.res.map (·.1)).contains (env.info x).resource = true := by
+      have := hl.present r0 hr0m
+      rw [hl.own r0 hr0m, hr0t'] at this
+      exact this
+    have hcap : ∀ d, capMid (outOf σ').res (env.info x).resource d = capMid (outOf σ).res (env.info x).resource d := by
+      intro d
+      show capMid σ'.res _ _ = capMid σ.res _ _
+      rw [hr']; exact capMid_append _ _ _ _ hkey
+    have hown : ∀ d, reserved (outOf σ').rows (env.info x).resource d (some x) =
+        reserved (outOf σ).rows (env.info x).resource d (some x) := by
+      intro d
+      show reserved σ'.rows _ _ _ = reserved σ.rows _ _ _
+      rw [hr, reserved_append, reserved_none_task r x hnew]
+      grind
+    have hbefore : ∀ d, bookedBefore env (outOf σ') (env.info x).resource d x =
+        bookedBefore env (outOf σ) (env.info x).resource d x := by
+      intro d
+      unfold bookedBefore
+      cases hb : env.balance with
+      | false => rfl
+      | true =>
+        simp only [if_true]
+        show (match firstRowIdx σ'.rows x with
+          | some i => reserved (σ'.rows.take i) _ d none
+          | none => reserved σ'.rows _ d none) =
+          (match firstRowIdx σ.rows x with
+          | some i => reserved (σ.rows.take i) _ d none
+          | none => reserved σ.rows _ d none)
+        have hsome : firstRowIdx σ.rows x = some (σ.rows.findIdx (fun r => r.task == x)) :=
+          List.findIdx?_eq_some_of_exists ⟨r0, hr0m, hr0t⟩
+        have hlt := (List.findIdx?_eq_some_iff_findIdx_eq.1 hsome).1
+        have hsome' : firstRowIdx σ'.rows x = some (σ.rows.findIdx (fun r => r.task == x)) := by
+          unfold firstRowIdx at hsome ⊢
+          rw [hr, List.findIdx?_append, hsome]
+          rfl
+        rw [hsome, hsome', hr]
+        simp only []
+        rw [List.take_append_of_le_length (Nat.le_of_lt hlt)]
+    have hf : (outOf σ').f x = (outOf σ).f x := he.frozen x hx
+    have hro : rowsOf (outOf σ').rows x = rowsOf (outOf σ).rows x := hrowsOf
+    unfold encT bookedUpTo
+    simp only [hcap, hown, hbefore, hf, hro]
+
+/-! ### the invariants carried through the forward run -/
+
+/-- ledger facts, "rows belong to done tasks", and "a leaf that is not done still has its original fields" -/
+structure Base (env : Env) (f0 : Uid → Fields) (σ : SS) : Prop where
+  ledger : LedgerOK env σ
+  rowsDone : ∀ r ∈ σ.rows, r.task ∈ σ.done
+  leafF : ∀ t, t ∉ σ.done → (env.info t).children.isEmpty = true → σ.f t = f0 t
+
+theorem Base.init (env : Env) (f0 : Uid → Fields) (mem : List Uid) (res0 : List (Option Nat × Cal)) (k : Nat) :
+    Base env f0 { f := prepare env f0 mem, rows := [], done := [], res := res0, reads := k } := by
+  refine ⟨LedgerOK.init env _ rfl, (fun r hr => by cases hr), ?_⟩
+  intro t _ hl
+  simp [prepare, hl]
+
+theorem Base.place {env : Env} {f0 : Uid → Fields} {σ σ' : SS} {t : Uid} {v : Time} (hb : Base env f0 σ)
+    (ht : t ∉ σ.done) (h : fwdPlace env σ t v = .ok σ') : Base env f0 σ' := by
+  obtain ⟨he, hd⟩ := fwdPlace_ext env σ σ' t v ht h
+  refine ⟨fwdPlace_ledger env σ σ' t v hb.ledger h, ?_, ?_⟩
+  · intro r hr
+    obtain ⟨new, hn, hq⟩ := he.rows
+    rw [hn] at hr
+    rcases List.mem_append.1 hr with hr | hr
+    · exact he.done_sub (hb.rowsDone r hr)
+    · exact (hq r hr).1
+  · intro x hx hl
+    rw [he.untouched x hx]
+    exact hb.leafF x (fun hc => hx (he.done_sub hc)) hl
+
+theorem Base.noRows {env : Env} {f0 : Uid → Fields} {σ : SS} (hb : Base env f0 σ) {t : Uid} (ht : t ∉ σ.done) :
+    ∀ r ∈ σ.rows, r.task ≠ t := fun r hr hc => ht (hc ▸ hb.rowsDone r hr)
+
+theorem c08Subject_spec {env : Env} {f0 : Uid → Fields} {t : Uid} (h : c08Subject env f0 t = true) :
+    (env.info t).children.isEmpty = true ∧ (env.info t).milestone = false ∧ (f0 t).start = none ∧
+      (f0 t).end_ = none := by
+  simpa [c08Subject, isLeaf, and_assoc] using h
+
+structure EncI (env : Env) (f0 : Uid → Fields) (σ : SS) : Prop where
+  base : Base env f0 σ
+  enc : ∀ t ∈ σ.done, c08Subject env f0 t = true → encT env (outOf σ) t = true
+
+theorem EncI.place {env : Env} {f0 : Uid → Fields} {σ σ' : SS} {t : Uid} {v : Time}
+    (hclk : ∀ k, dayOf (env.clock k) < dayOf env.bound) (hv : env.bound ≤ v) (hi : EncI env f0 σ)
+    (ht : t ∉ σ.done) (h : fwdPlace env σ t v = .ok σ') : EncI env f0 σ' := by
+  obtain ⟨he, hd⟩ := fwdPlace_ext env σ σ' t v ht h
+  refine ⟨hi.base.place ht h, ?_⟩
+  intro x hx hsub
+  rw [hd] at hx
+  rcases List.mem_append.1 hx with hx | hx
+  · rw [encT_ext env σ σ' x hx he hi.base.ledger]
+    exact hi.enc x hx hsub
+  · simp only [List.mem_singleton] at hx
+    subst hx
+    obtain ⟨hleaf, hm, hs, hen⟩ := c08Subject_spec hsub
+    have hfx := hi.base.leafF x ht hleaf
+    exact place_enc env σ σ' x v hclk hv hi.base.ledger (hi.base.noRows ht) (by rw [hfx]; exact hs)
+      (by rw [hfx]; exact hen) hleaf hm h
+
+/-- at the end of a forward run every member is done -/
+theorem fwdRun_all_done (env : Env) (mem : List Uid) (hm : members env = some mem) (σ0 σ : SS) (h0 : σ0.done = [])
+    (hp : passList (fun σ r => fwdPass env (env.n + 1) [] σ r env.bound) σ0 env.roots = .ok σ) :
+    ∀ t ∈ mem, t ∈ σ.done := by
+  have hcl : DoneClosed env σ :=
+    passList_inv (DoneClosed env) _ _ (fun a x b _ ha hh => fwdPass_doneClosed env _ _ _ _ _ _ ha hh) _ _
+      (by intro x hx; rw [h0] at hx; cases hx) hp
+  have hroots : ∀ r ∈ env.roots, r ∈ σ.done :=
+    passList_all_done _ _ (fun a x b _ hh => fwdPass_ext env _ _ _ _ _ _ hh) _ _ hp
+  intro t ht
+  obtain ⟨rt, hrt, l, hl, htl⟩ := (members_spec env mem hm).2 t ht
+  exact hcl.subtree (hroots rt hrt) _ l hl t htl
+
+theorem encode_partial (env : Env) (f0 : Uid → Fields) (res0 : List (Option Nat × Cal)) (o : Output)
+    (hb : ∀ k, dayOf (env.clock k) < dayOf env.bound)
+    (h : forwardCalc env f0 res0 = .ok o) : c08Encode env f0 o = true := by
+  obtain ⟨mem, σ, hm, hp, ho⟩ := fwdRun_ok env f0 res0 o (forwardCalc_run env f0 res0 o h)
+  have hI : EncI env f0 σ := by
+    refine passList_inv (EncI env f0) _ _ ?_ _ _ ⟨Base.init env f0 mem res0 1, fun t ht => by cases ht⟩ hp
+    intro a x b _ ha hh
+    exact fwdPass_inv2 env (EncI env f0) (fun _ m => env.bound ≤ m)
+      (fun σ1 σ σ' t m hq hi _ _ ht _ hpl => EncI.place hb (Rat.le_trans hq (le_maxEnds _ _ _)) hi ht hpl)
+      (fun t c σ1 m hq _ => Rat.le_trans hq (le_maxEnds _ _ _))
+      (fun t p m hq _ _ => hq) _ _ _ _ _ _ (Rat.le_refl) ha hh
+  have hdone := fwdRun_all_done env mem hm _ σ rfl hp
+  rw [c08Encode_eq, List.all_eq_true, memberList_eq env mem hm]
+  intro t ht
+  cases hsub : c08Subject env f0 t with
+  | false => rfl
+  | true =>
+    have := hI.enc t (hdone t ht) hsub
+    subst ho
+    simpa [outOf] using this
+
+end Pj.C08
